@@ -96,6 +96,33 @@ def handle (z : Z) (args : List String) : Z × String :=
         | .err _ => "err"
         | .panic s => "panic " ++ s)
     | _, _, _ => (z, "bad-op")
+  | ["prim", name, v, h] =>
+    match v.toNat?, ofHex h with
+    | some v, some bs =>
+      let run {α} (p : Parser α) : String := match p.run bs with
+        | .ok (_, rest) => s!"ok {bs.length - rest.length}"
+        | .err _ => "err"
+        | .panic s => "panic " ++ s
+      (z, match name with
+        | "string" => run Prim.readString
+        | "longstring" => run Prim.readLongString
+        | "bytes" => run Prim.readBytes
+        | "shortbytes" => run Prim.readShortBytes
+        | "stringlist" => run Prim.readStringList
+        | "stringmap" => run Prim.readStringMap
+        | "multimap" => run Prim.readStringMultiMap
+        | "bytesmap" => run Prim.readBytesMap
+        | "uuid" => run Prim.readUuid
+        | "inetaddr" => run Prim.readInetAddr
+        | "inet" => run Prim.readInet
+        | "value" => run (Prim.readValue v)
+        | "posvalues" => run (Prim.readPositionalValues v)
+        | "namedvalues" => run (Prim.readNamedValues v)
+        | "reasonmap" => run Prim.readReasonMap
+        | "streamid" => run (Prim.readStreamId v)
+        | "datatype" => run (DataType.read v)
+        | _ => "bad-op")
+    | _, _ => (z, "bad-op")
   | _ => (z, "bad-op")
 
 end Driver.Frame
